@@ -9,6 +9,7 @@ CONSTANTS
   RxDeltas <- RxBack
   Delays <- DelaysFull
   CtrlDelays = {5}
+  IndexMode = "pos"
   Record = FALSE
 INVARIANTS ThrAtLeastD Permutation OrderedUnderBound
 CHECK_DEADLOCK FALSE
